@@ -613,9 +613,13 @@ class TensorDictSequential(TensorDictModule):
         tensordict_out: TensorDictBase | None = None,
         **kwargs: Any,
     ) -> TensorDictBase:
-        if (tensordict_out is None and self._select_before_return) or (
-            tensordict_out is not None
+        if (
+            (tensordict_out is None and self._select_before_return)
+            or (tensordict_out is not None)
+            or (self.inplace is False or self.inplace == "empty")
         ):
+            # the modules write into a (shallow) copy: with inplace=False / "empty" the result goes to
+            # a new tensordict and the input is left as it is
             tensordict_exec = tensordict.copy()
         else:
             tensordict_exec = tensordict
